@@ -46,7 +46,7 @@ def verify_function(index, registry, qual, prune_ms=150) -> FunctionResult:
     # call sites always use the plain contract.
     qual, _, variant = qual.partition("#")
     try:
-        module, cls, fnode = index.function(qual, registry)
+        module, cls, fnode = index.function(qual, registry, variant)
     except KeyError as e:
         res.errors.append("cannot extract %s from the current source: %s" % (qual, e))
         return res
